@@ -1,6 +1,7 @@
 import HcipyVerif.Lemmas.Fraunhofer
 import HcipyVerif.Lemmas.FourierLink
 import HcipyVerif.Lemmas.FraunhoferSelect
+import HcipyVerif.Lemmas.FraunhoferBridge
 
 /-!
 # C03 — lens (Fraunhofer) propagation equals the scaled Fourier integral
@@ -691,5 +692,203 @@ example : ∃ g : Cfg ℝ ℂ, AxisOK g ∧ g.Mo = g.M :=
     ⟨by norm_num, by norm_num, by norm_num, rfl⟩, rfl⟩
 
 end fft
+
+/-! ## the executed pipeline
+
+The theorems of this section speak about the **very functions the native driver runs** on every check
+(`Model/FraunhoferPipe.lean`: `lensForward`/`lensBackward` = selection result → `lensCfg` → `fastForward2` /
+`lensMftForward` → norm factor; `Fft.choose detectFix`; `classify`; `lensMethod`), here at `K = ℝ`, `C = ℂ`, `T = expT`,
+`E = expE`, `unit = 2π`; the driver runs them at `Rat`/`PSum`/`PSum.turns`/`unit = 1` on unit impulses and the harness
+compares the outcome with `FraunhoferPropagator.forward/backward` of the running code (op `lens`).
+`numFft`, `My Mx` are the inputs the executable selection takes from `classify` and `cheaper` is the planner's
+outcome (any value). -/
+section pipeline
+open HcipyVerif.Fft HcipyVerif.FourierLink
+
+/-- **The executed forward pipeline equals the scaled Fourier integral**, whatever method the modelled
+`make_fourier_transform` returns from sound inputs (`hn`: `numFft` only if the uv grid is FFT-native with padded sizes
+`My Mx`), every wavelength and focal length (also `λ f < 0`), both shift settings, every focal point. -/
+theorem lens_forward_eq_integral (py px Fy Fx : RegAxis) (lam f : ℝ) (My Mx : ℕ) (emu numFft cheaper : Bool) (m : Method)
+    (hm : (Fft.choose detectFix regDesc (some ⟨regDesc, numFft⟩) cheaper).map (·.method) = some m)
+    (hn : numFft = true → lam * f ≠ 0 ∧ NativeAxis py Fy (lam * f) My ∧ NativeAxis px Fx (lam * f) Mx)
+    (E : Fin py.n × Fin px.n → ℂ) (k : Fin Fy.n × Fin Fx.n) :
+    lensForward expT expE (2 * Real.pi) Complex.ofReal (normFactorC lam f) m emu (axOf py) (axOf px) (axOf Fy) (axOf Fx)
+        (lam * f) My Mx (ext2 E) k.1 k.2
+      = 1 / (I * (lam : ℂ) * (f : ℂ))
+        * ∑ j : Fin py.n × Fin px.n, E j * ((py.δ * px.δ : ℝ) : ℂ)
+            * cexp (-(2 * (Real.pi : ℂ) * I * ((dot ![Fx.x k.2, Fy.x k.1] ![px.x j.2, py.x j.1] : ℝ) : ℂ))
+                / ((lam : ℂ) * (f : ℂ))) := by
+  obtain ⟨T, hT, _, hF, _⟩ := lens_transform py px Fy Fx (lam * f) My Mx emu numFft cheaper m hm hn
+  rw [hF]
+  exact fraunhofer_eq_integral_at (τ := Unit) ⟨regGrid2 py px, regGrid2 Fy Fx, fun _ => f, fun _ => T⟩
+    ⟨fun _ => E, lam, none⟩ (by
+      show EvaluatesFourierSum T (regGrid2 py px) ((regGrid2 Fy Fx).scaled (uvScaleR lam f))
+      rw [uvScaleR_eq]; exact hT) () k
+
+/-- **The executed backward pipeline is the adjoint Fourier integral** (`λ f > 0`, positive focal spacings). -/
+theorem lens_backward_eq_adjoint_integral (py px Fy Fx : RegAxis) (lam f : ℝ) (My Mx : ℕ) (emu numFft cheaper : Bool)
+    (m : Method)
+    (hm : (Fft.choose detectFix regDesc (some ⟨regDesc, numFft⟩) cheaper).map (·.method) = some m)
+    (hn : numFft = true → lam * f ≠ 0 ∧ NativeAxis py Fy (lam * f) My ∧ NativeAxis px Fx (lam * f) Mx)
+    (hpos : 0 < lam * f) (hy : 0 < Fy.δ) (hx : 0 < Fx.δ)
+    (G : Fin Fy.n × Fin Fx.n → ℂ) (j : Fin py.n × Fin px.n) :
+    lensBackward expT expE (starRingEnd ℂ) (2 * Real.pi) Complex.ofReal (fun r => |r|) (normFactorC lam f) m emu
+        (axOf py) (axOf px) (axOf Fy) (axOf Fx) (lam * f) My Mx (ext2 G) j.1 j.2
+      = I / ((lam : ℂ) * (f : ℂ))
+        * ∑ k : Fin Fy.n × Fin Fx.n, G k * ((Fy.δ * Fx.δ : ℝ) : ℂ)
+            * cexp (2 * (Real.pi : ℂ) * I * ((dot ![Fx.x k.2, Fy.x k.1] ![px.x j.2, py.x j.1] : ℝ) : ℂ)
+                / ((lam : ℂ) * (f : ℂ))) := by
+  obtain ⟨T, _, hA, _, hB⟩ := lens_transform py px Fy Fx (lam * f) My Mx emu numFft cheaper m hm hn
+  rw [hB hy hx]
+  exact fraunhofer_backward_eq_adjoint_integral (τ := Unit) ⟨regGrid2 py px, regGrid2 Fy Fx, fun _ => f, fun _ => T⟩
+    ⟨fun _ => G, lam, none⟩ hpos (by
+      show EvaluatesAdjointSum T (regGrid2 py px) ((regGrid2 Fy Fx).scaled (uvScaleR lam f))
+      rw [uvScaleR_eq]; exact hA) () j
+
+/-- **The executed forward pipeline conserves power on a full conjugate grid** (`FullAt`), whichever method was
+selected. -/
+theorem lens_power (py px Fy Fx : RegAxis) (lam f : ℝ) (My Mx : ℕ) (emu numFft cheaper : Bool) (m : Method)
+    (hm : (Fft.choose detectFix regDesc (some ⟨regDesc, numFft⟩) cheaper).map (·.method) = some m)
+    (hn : numFft = true → lam * f ≠ 0 ∧ NativeAxis py Fy (lam * f) My ∧ NativeAxis px Fx (lam * f) Mx)
+    (hpos : 0 < lam * f) (hfull : FullAt py px Fy Fx (lam * f)) (E : Fin py.n × Fin px.n → ℂ) :
+    power (regGrid2 Fy Fx).weights (fun k : Fin Fy.n × Fin Fx.n =>
+        lensForward expT expE (2 * Real.pi) Complex.ofReal (normFactorC lam f) m emu (axOf py) (axOf px) (axOf Fy)
+          (axOf Fx) (lam * f) My Mx (ext2 E) k.1 k.2)
+      = power (regGrid2 py px).weights E := by
+  obtain ⟨T, hT, _, hF, _⟩ := lens_transform py px Fy Fx (lam * f) My Mx emu numFft cheaper m hm hn
+  have h := fraunhofer_power (τ := Unit) ⟨regGrid2 py px, regGrid2 Fy Fx, fun _ => f, fun _ => T⟩
+    ⟨fun _ => E, lam, none⟩ hpos (by
+      show ParsevalOn T (regGrid2 py px) ((regGrid2 Fy Fx).scaled (uvScaleR lam f))
+      rw [uvScaleR_eq]; exact parseval_of_full hfull hT)
+  simp only [Finset.univ_unique, Finset.sum_singleton] at h
+  rw [← h]
+  congr 1
+  funext k
+  exact hF _ E k
+
+/-- **Backward after forward of the executed pipeline restores the field** on a full conjugate grid. -/
+theorem lens_inverse (py px Fy Fx : RegAxis) (lam f : ℝ) (My Mx : ℕ) (emu numFft cheaper : Bool) (m : Method)
+    (hm : (Fft.choose detectFix regDesc (some ⟨regDesc, numFft⟩) cheaper).map (·.method) = some m)
+    (hn : numFft = true → lam * f ≠ 0 ∧ NativeAxis py Fy (lam * f) My ∧ NativeAxis px Fx (lam * f) Mx)
+    (hy : 0 < Fy.δ) (hx : 0 < Fx.δ) (hfull : FullAt py px Fy Fx (lam * f)) (E : Fin py.n × Fin px.n → ℂ)
+    (j : Fin py.n × Fin px.n) :
+    lensBackward expT expE (starRingEnd ℂ) (2 * Real.pi) Complex.ofReal (fun r => |r|) (normFactorC lam f) m emu
+        (axOf py) (axOf px) (axOf Fy) (axOf Fx) (lam * f) My Mx
+        (ext2 fun k : Fin Fy.n × Fin Fx.n =>
+          lensForward expT expE (2 * Real.pi) Complex.ofReal (normFactorC lam f) m emu (axOf py) (axOf px) (axOf Fy)
+            (axOf Fx) (lam * f) My Mx (ext2 E) k.1 k.2) j.1 j.2
+      = E j := by
+  obtain ⟨T, hT, hA, hF, hB⟩ := lens_transform py px Fy Fx (lam * f) My Mx emu numFft cheaper m hm hn
+  have hfun : (fun k : Fin Fy.n × Fin Fx.n =>
+      lensForward expT expE (2 * Real.pi) Complex.ofReal (normFactorC lam f) m emu (axOf py) (axOf px) (axOf Fy)
+        (axOf Fx) (lam * f) My Mx (ext2 E) k.1 k.2) = normFactorC lam f • T.fwd E := by
+    funext k; exact hF _ E k
+  rw [hfun, hB hy hx, map_smul, inverse_of_full hfull hT hA E, Pi.smul_apply, smul_eq_mul, ← mul_assoc,
+    inv_mul_cancel₀ (normFactorC_ne_zero hfull.1), one_mul]
+
+/-- the hypotheses `hm`, `hn` are satisfiable with the FFT selected: pupil `2×2`, `δ = 1/2`; focal `4×4`, `Δ = 1/2`;
+`λ f = 1·1`, padded sizes `4` -/
+example : (Fft.choose detectFix regDesc (some ⟨regDesc, true⟩) true).map (·.method) = some Method.fft ∧
+    (true = true → (1 : ℝ) * 1 ≠ 0 ∧ NativeAxis ⟨2, 1 / 2, 0⟩ ⟨4, 1 / 2, -1⟩ (1 * 1) 4 ∧
+      NativeAxis ⟨2, 1 / 2, 0⟩ ⟨4, 1 / 2, -1⟩ (1 * 1) 4) := by
+  refine ⟨by decide, fun _ => ⟨by norm_num, ⟨?_, ?_, ?_⟩, ⟨?_, ?_, ?_⟩⟩⟩ <;> norm_num
+
+/-! ### … from the executable classification (ℚ model, compared with the running code on every run) -/
+
+/-- **End to end**: for a rational setup `s` (`λ`, `f`, 2-D pupil grid) and a rational regular focal grid, the method
+`lensMethod` returns and the padded sizes `classify` returns — exactly what the driver's `lensImpulse` feeds into
+`lensForward` — give the scaled Fourier integral.  No hypothesis about the transform, the selection or the grids
+besides `λ f ≠ 0`. -/
+theorem lens_forward_eq_integral_of_model (s : Setup) (focal : RegGrid) {δx δy Δx Δy zx zy Zx Zy : ℚ}
+    {Nx Ny Mox Moy : ℕ} (hp : s.pupil = ⟨[δx, δy], [Nx, Ny], [zx, zy]⟩)
+    (hf : focal = ⟨[Δx, Δy], [Mox, Moy], [Zx, Zy]⟩) (hlf : lamf s ≠ 0) (cheaper emu : Bool) (m : Method)
+    (hm : lensMethod s focal cheaper = some m) (Mx My : ℕ)
+    (hM : (classify s focal).1 ≠ .other → (classify s focal).2 = [Mx, My])
+    (E : Fin Ny × Fin Nx → ℂ) (k : Fin Moy × Fin Mox) :
+    lensForward expT expE (2 * Real.pi) Complex.ofReal (normFactorC (s.lam : ℝ) (s.f : ℝ)) m emu
+        (axOf (axisR Ny δy zy)) (axOf (axisR Nx δx zx)) (axOf (axisR Moy Δy Zy)) (axOf (axisR Mox Δx Zx))
+        ((s.lam : ℝ) * (s.f : ℝ)) My Mx (ext2 E) k.1 k.2
+      = 1 / (I * ((s.lam : ℝ) : ℂ) * ((s.f : ℝ) : ℂ))
+        * ∑ j : Fin Ny × Fin Nx, E j * (((δy : ℝ) * (δx : ℝ) : ℝ) : ℂ)
+            * cexp (-(2 * (Real.pi : ℂ) * I * ((dot ![(axisR Mox Δx Zx).x k.2, (axisR Moy Δy Zy).x k.1]
+                  ![(axisR Nx δx zx).x j.2, (axisR Ny δy zy).x j.1] : ℝ) : ℂ))
+                / (((s.lam : ℝ) : ℂ) * ((s.f : ℝ) : ℂ))) := by
+  have hcast : ((lamf s : ℚ) : ℝ) = (s.lam : ℝ) * (s.f : ℝ) := by unfold lamf; push_cast; rfl
+  apply lens_forward_eq_integral (axisR Ny δy zy) (axisR Nx δx zx) (axisR Moy Δy Zy) (axisR Mox Δx Zx) (s.lam : ℝ)
+    (s.f : ℝ) My Mx emu ((classify s focal).1 != FocalClass.other) cheaper m
+  · have h2 : s.pupil.ndim = 2 := by rw [hp]; rfl
+    have h3 : focal.ndim = 2 := by rw [hf]; rfl
+    unfold lensMethod at hm
+    rw [h2, h3] at hm
+    exact hm
+  · intro hnum
+    have hne : (classify s focal).1 ≠ .other := by simpa using hnum
+    obtain ⟨Mx', My', hMs, ⟨hNx, hMox, hx⟩, ⟨hNy, hMoy, hy⟩⟩ := classify_native_2d hp hf hne
+    have := hM hne
+    rw [hMs] at this
+    simp only [List.cons.injEq, and_true] at this
+    obtain ⟨rfl, rfl⟩ := this
+    rw [← hcast]
+    exact ⟨by exact_mod_cast hlf, nativeAxis_cast hNy hMoy hy, nativeAxis_cast hNx hMox hx⟩
+
+/-- **… and conserves power when `classify` says `full`** (`λ f > 0`): the executable classification the harness
+compares with the class `make_fourier_transform` returned implies the hypothesis of `lens_power`. -/
+theorem lens_power_of_model (s : Setup) (focal : RegGrid) {δx δy Δx Δy zx zy Zx Zy : ℚ}
+    {Nx Ny Mox Moy : ℕ} {Ms : List ℕ} (hp : s.pupil = ⟨[δx, δy], [Nx, Ny], [zx, zy]⟩)
+    (hf : focal = ⟨[Δx, Δy], [Mox, Moy], [Zx, Zy]⟩) (hlf : 0 < lamf s) (hfull : classify s focal = (.full, Ms))
+    (cheaper emu : Bool) (m : Method) (hm : lensMethod s focal cheaper = some m) (E : Fin Ny × Fin Nx → ℂ) :
+    power (regGrid2 (axisR Moy Δy Zy) (axisR Mox Δx Zx)).weights (fun k : Fin Moy × Fin Mox =>
+        lensForward expT expE (2 * Real.pi) Complex.ofReal (normFactorC (s.lam : ℝ) (s.f : ℝ)) m emu
+          (axOf (axisR Ny δy zy)) (axOf (axisR Nx δx zx)) (axOf (axisR Moy Δy Zy)) (axOf (axisR Mox Δx Zx))
+          ((s.lam : ℝ) * (s.f : ℝ)) Moy Mox (ext2 E) k.1 k.2)
+      = power (regGrid2 (axisR Ny δy zy) (axisR Nx δx zx)).weights E := by
+  have hcast : ((lamf s : ℚ) : ℝ) = (s.lam : ℝ) * (s.f : ℝ) := by unfold lamf; push_cast; rfl
+  have hF := fullAt_of_classify hp hf hfull hlf.ne'
+  rw [hcast] at hF
+  have hpos : 0 < (s.lam : ℝ) * (s.f : ℝ) := by rw [← hcast]; exact_mod_cast hlf
+  apply lens_power (axisR Ny δy zy) (axisR Nx δx zx) (axisR Moy Δy Zy) (axisR Mox Δx Zx) (s.lam : ℝ)
+    (s.f : ℝ) Moy Mox emu ((classify s focal).1 != FocalClass.other) cheaper m ?_ (fun _ => ⟨hF.1, hF.2.1, hF.2.2⟩) hpos hF
+  have h2 : s.pupil.ndim = 2 := by rw [hp]; rfl
+  have h3 : focal.ndim = 2 := by rw [hf]; rfl
+  unfold lensMethod at hm
+  rw [h2, h3] at hm
+  exact hm
+
+/-- **The executable `powerGain` (the number the harness compares with the measured power ratio of the running code)
+is exactly `1` on every focal grid `classify` calls `full`** — any signs of the spacings, `λ f ≠ 0`. -/
+theorem model_powerGain_of_full {s : Setup} {focal : RegGrid} {δx δy Δx Δy zx zy Zx Zy : ℚ} {Nx Ny Mox Moy : ℕ}
+    {Ms : List ℕ} (hp : s.pupil = ⟨[δx, δy], [Nx, Ny], [zx, zy]⟩) (hf : focal = ⟨[Δx, Δy], [Mox, Moy], [Zx, Zy]⟩)
+    (h : classify s focal = (.full, Ms)) (hlf : lamf s ≠ 0) : powerGain s focal Ms = 1 :=
+  powerGain_of_full hp hf h hlf
+
+/-- **What `classify = full` means**: padded sizes = focal sizes, `N ≤ Mo`, `Mo·δ·Δ = λ f` on both axes, centred. -/
+theorem model_classify_full {s : Setup} {focal : RegGrid} {δx δy Δx Δy zx zy Zx Zy : ℚ} {Nx Ny Mox Moy : ℕ}
+    {Ms : List ℕ} (hp : s.pupil = ⟨[δx, δy], [Nx, Ny], [zx, zy]⟩) (hf : focal = ⟨[Δx, Δy], [Mox, Moy], [Zx, Zy]⟩)
+    (h : classify s focal = (.full, Ms)) :
+    Ms = [Mox, Moy] ∧ (Nx ≤ Mox ∧ (Mox : ℚ) * (δx * Δx) = lamf s ∧ 0 < Mox) ∧
+      (Ny ≤ Moy ∧ (Moy : ℚ) * (δy * Δy) = lamf s ∧ 0 < Moy) ∧ Zx = nativeZero Δx Mox ∧ Zy = nativeZero Δy Moy :=
+  classify_full_2d hp hf h
+
+/-- non-vacuity: a setup and focal grid that `classify` calls `full` (pupil `2×2`, `δ = 1`; focal `4×4`, `Δ = 1`,
+centred; `λ f = 4`) -/
+example : classify ⟨4, 1, ⟨[1, 1], [2, 2], [0, 0]⟩⟩ ⟨[1, 1], [4, 4], [-2, -2]⟩ = (.full, [4, 4]) := by
+  have h : paddedSize 4 1 1 2 = some 4 := by
+    unfold paddedSize
+    norm_num
+    rfl
+  simp [classify, paddedSizes, lamf, h, nativeZero]
+
+/-- **`make_focal_grid` contains the origin**: sample `⌊M/2⌋` of every axis is `0` (any number of axes, any `q`,
+`num_airy`, `spatial_resolution`). -/
+theorem makeFocalGrid_contains_origin (q a sr : List ℚ) :
+    (makeFocalGrid q a sr).1.point ((makeFocalGrid q a sr).1.dims.map (· / 2))
+      = (makeFocalGrid q a sr).1.dims.map fun _ => 0 := makeFocalGrid_origin q a sr
+
+/-- **`make_focal_grid_from_pupil_grid` contains the origin.** -/
+theorem focalFromPupil_contains_origin (pupil : RegGrid) (q : ℚ) (na : Option ℚ) (lf : ℚ) :
+    (focalFromPupil pupil q na lf).1.point ((focalFromPupil pupil q na lf).1.dims.map (· / 2))
+      = (focalFromPupil pupil q na lf).1.dims.map fun _ => 0 := focalFromPupil_origin pupil q na lf
+
+end pipeline
 
 end HcipyVerif.Fraunhofer
